@@ -196,6 +196,9 @@ def hist_jobs(build, n, seed, props, n_events=120, ids_pool=(3, 4, 5, 6, 17), op
             ids = [[5, 261, 1029, 65541], [7, 7 + 1024, 7 + 2048, 7 + (1 << 20)], [-2147483648, 2147483647, -2, 2000000000, -2000000000]][(i // 4) % 3]
         o = dict(opts or {})
         o.setdefault("vary_addr", vary_addr)
+        w0 = dict(o.get("weights") or {})
+        w0.setdefault("noise", 3)
+        o["weights"] = w0
         rng2 = random.Random("%s/r/%d/%d" % (tag, seed, i))
         if rng2.random() < reload_share:
             w = dict(o.get("weights") or {})
